@@ -9,6 +9,10 @@ _FALSE = object()
 
 
 def replace_bool(value: Any) -> Any:
+    if isinstance(value, list):
+        return [replace_bool(item) for item in value]
+    if isinstance(value, dict):
+        return {key: replace_bool(item) for key, item in value.items()}
     return _TRUE if value is True else _FALSE if value is False else value
 
 
